@@ -78,6 +78,7 @@ fn replay(args: &[String]) -> i32 {
     let seed: u64 = arg(args, "--seed").unwrap_or("0").parse().unwrap();
     let threads: usize = arg(args, "--threads").unwrap_or("16").parse().unwrap();
     let max_fail: usize = arg(args, "--max-fail").unwrap_or("25").parse().unwrap();
+    let alphabet_arg: Option<u8> = arg(args, "--alphabet").and_then(|a| a.parse().ok());
 
     let f = std::fs::File::open(vec_path).expect("open vectors");
     let vectors: Vec<Value> = std::io::BufReader::new(f)
@@ -149,7 +150,9 @@ fn replay(args: &[String]) -> i32 {
                 }
                 let (vi, g, p) = &items[ix];
                 let v = &vectors[*vi];
-                let conc = Conc { atom_len: *p, seed };
+                // the atom alphabet rotates with the vector index (a recorded failure carries the one it ran under)
+                let alphabet = match alphabet_arg { Some(a) => a, None => (*vi % 3) as u8 };
+                let conc = Conc { atom_len: *p, seed, alphabet };
                 flight[w].1.store(t0.elapsed().as_secs(), Ordering::Relaxed);
                 flight[w].0.store(ix, Ordering::Relaxed);
                 let o = run_vector(v, g, &conc, &tables);
@@ -175,7 +178,7 @@ fn replay(args: &[String]) -> i32 {
                     let cnt = b.entry(bucket).or_insert(0usize);
                     if *cnt < max_fail && f.len() < 20 * max_fail {
                         *cnt += 1;
-                        f.push(json!({"vector": v, "group": g, "atom_len": p, "seed": seed, "observed": o.obs, "why": o.why}));
+                        f.push(json!({"vector": v, "group": g, "atom_len": p, "seed": seed, "alphabet": alphabet, "observed": o.obs, "why": o.why}));
                     }
                 }
             }
